@@ -33,6 +33,7 @@ const modPath = "github.com/xuperchain/xupercore"
 var goRewrites = map[string][]string{
 	"bcs/ledger/xledger/state/state.go":     {"Walk"},
 	"kernel/engines/xuperos/miner/miner.go": {"mining"},
+	"kernel/network/p2p/dispatcher.go":      {"Dispatch"},
 }
 
 // mapOrderRewrites: file -> functions whose `range` over maps become ordered.
@@ -42,7 +43,13 @@ var mapOrderRewrites = map[string]map[string][]string{
 }
 
 // syncRewrites: package dir -> functions excluded from the rewrite.
-var syncRewrites = map[string][]string{}
+var syncRewrites = map[string][]string{
+	"bcs/ledger/xledger/state/utxo":   {},
+	"bcs/ledger/xledger/state/xmodel": {},
+	"bcs/ledger/xledger/state/meta":   {},
+	"bcs/ledger/xledger/tx":           {},
+	"kernel/network/p2p":              {},
+}
 
 // virtual files: destination (relative to repo) -> source (relative to /verif/hooks)
 var virtualFiles = map[string]string{
